@@ -106,7 +106,14 @@ def worker_main(mod, prop, seed, indices, wfd, deadline, sample_idx, cold=None):
                 out.write(json.dumps({"type": "stopped_early", "idx": idx}) + "\n")
                 break
             try:
-                plan, res = one_run(mod, prop, seed, idx, ctx)
+                try:
+                    plan, res = one_run(mod, prop, seed, idx, ctx)
+                except HarnessError as e:
+                    if "timed out" not in str(e):
+                        raise
+                    # a wall-clock timeout on a loaded machine: the run is deterministic,
+                    # so it is simply executed once more before it counts as a harness error
+                    plan, res = one_run(mod, prop, seed, idx, ctx)
             except HarnessError as e:
                 out.write(json.dumps({"type": "harness_error", "idx": idx, "error": str(e)[:2000]}) + "\n")
                 continue
